@@ -70,6 +70,28 @@ def run(ctx):
         ctx.check('R1', f'field `{field}` (read by {f.short}) is unconditionally initialised when a load is entered', field in uncond, 'RemoteState.context.__init__',
                   f'field-not-reinitialised:{field}', f'the per-thread field `{field}` is read during a load but not unconditionally (re)assigned when a load begins: '
                   'after a load that failed part-way the next loads() on the same thread starts from the residue', where=loc(f, a))
+    # stated beliefs about the per-thread state at the start of a load must hold on every history (Engler-style contradiction):
+    # `assert not hasattr(state, F)` is contradicted if F is assigned by a load and not deleted on every exit of the context
+    ex = C.methods.get('__exit__')
+    for st in init.node.body:
+        if isinstance(st, ast.Assert):
+            t = st.test
+            if isinstance(t, ast.UnaryOp) and isinstance(t.op, ast.Not) and isinstance(t.operand, ast.Call) and is_name(t.operand.func, 'hasattr') and len(t.operand.args) == 2 \
+                    and isinstance(t.operand.args[1], ast.Constant) and holder in norm(t.operand.args[0]):
+                field = t.operand.args[1].value
+                if field not in writes:
+                    ctx.ob('R1', f'belief `{norm(st.test)}`: the field is never assigned - vacuously true', True)
+                    continue
+                okb = False
+                if ex is not None:
+                    gx = ctx.an.cfg(ex, C)
+                    dels = {n.id for n in gx.nodes if n.stmt is not None and isinstance(n.stmt, ast.Delete) and any(
+                        isinstance(x, ast.Attribute) and x.attr == field for x in n.stmt.targets)}
+                    px = gx.find_path([gx.entry], lambda n: n is gx.exit, edge_ok=is_flow, node_ok=lambda n: n.id not in dels)
+                    okb = bool(dels) and px is None
+                ctx.check('R1', f'belief `{norm(st.test)}` at the start of a load holds on every history', okb, 'RemoteState.context.__init__', f'belief-contradicted:hasattr:{field}',
+                          f'a load asserts that the per-thread field `{field}` does not exist when it starts, but the field is only removed when the previous load succeeded: '
+                          'after one loads() that raised part-way every later loads() on that thread fails with AssertionError', where=loc(init, st))
     # nothing outside the state module touches the holder
     foreign = [(f, a) for f in P.funcs.values() if f.module is not smod for a in ast.walk(f.node) if isinstance(a, ast.Attribute) and a.attr == holder]
     ctx.check('R1', 'only the state module touches the per-thread state', not foreign, foreign[0][0].short if foreign else 'RemoteState', 'foreign-state-access',
